@@ -253,6 +253,9 @@ func (p *Prog) FuncValues(v ssa.Value) ([]*ssa.Function, bool) {
 
 // unwrapBound maps the synthetic wrapper of a bound method value (x.m used as
 // a function value) to the method itself.
+// UnwrapBound returns the method behind a bound-method wrapper (f itself otherwise).
+func UnwrapBound(f *ssa.Function) *ssa.Function { return unwrapBound(f) }
+
 func unwrapBound(f *ssa.Function) *ssa.Function {
 	if f.Synthetic == "" || !strings.HasSuffix(f.Name(), "$bound") {
 		return f
@@ -2362,6 +2365,13 @@ func evalBool(p *Prog, f *ssa.Function, atomOf func(ssa.Value) (name string, neg
 // path's phi choices; returning false stops the extension of that path. The
 // walk gives up (ok = false) after a fixed budget of visits.
 func WalkNilPaths(start *ssa.BasicBlock, visit func(path []*ssa.BasicBlock, resolve func(ssa.Value) ssa.Value) bool) (ok bool) {
+	return WalkNilPathsKnowing(start, nil, visit)
+}
+
+// WalkNilPathsKnowing is WalkNilPaths with a predicate for values that are
+// never nil (fresh allocations, constructor results): a nil test on such a
+// value has only one feasible outcome.
+func WalkNilPathsKnowing(start *ssa.BasicBlock, nonNil func(ssa.Value) bool, visit func(path []*ssa.BasicBlock, resolve func(ssa.Value) ssa.Value) bool) (ok bool) {
 	budget := 20000
 	ok = true
 	type env struct {
@@ -2456,6 +2466,10 @@ func WalkNilPaths(start *ssa.BasicBlock, visit func(path []*ssa.BasicBlock, reso
 						if !isNil {
 							continue
 						}
+					} else if nonNil != nil && nonNil(subj) {
+						if isNil {
+							continue
+						}
 					} else if known, has := ne.fact[subj]; has {
 						if known != isNil {
 							continue
@@ -2474,4 +2488,41 @@ func WalkNilPaths(start *ssa.BasicBlock, visit func(path []*ssa.BasicBlock, reso
 	}
 	walk(start, nil, nil, env{phi: map[*ssa.Phi]ssa.Value{}, fact: map[ssa.Value]bool{}})
 	return ok
+}
+
+// SameFieldLoad reports whether a and b are loads of the same field through
+// the same base pointer in one function that never stores to that field
+// (go/ssa has no common-subexpression elimination, so `x.f` read twice is two
+// values).
+func SameFieldLoad(a, b ssa.Value) bool {
+	ua, ok1 := a.(*ssa.UnOp)
+	ub, ok2 := b.(*ssa.UnOp)
+	if !ok1 || !ok2 || ua.Op != token.MUL || ub.Op != token.MUL {
+		return false
+	}
+	fa, ok1 := ua.X.(*ssa.FieldAddr)
+	fb, ok2 := ub.X.(*ssa.FieldAddr)
+	if !ok1 || !ok2 || fa.Field != fb.Field || fa.X != fb.X || fa.Parent() != fb.Parent() {
+		return false
+	}
+	written := false
+	Instrs(fa.Parent(), func(ins ssa.Instruction) {
+		if st, ok := ins.(*ssa.Store); ok {
+			if f2, ok := st.Addr.(*ssa.FieldAddr); ok && f2.Field == fa.Field && FieldOwner(f2) == FieldOwner(fa) {
+				written = true
+			}
+		}
+	})
+	return !written
+}
+
+// PathConds returns the branch outcomes taken along a path of blocks.
+func PathConds(path []*ssa.BasicBlock) []Cond {
+	var out []Cond
+	for i := 0; i+1 < len(path); i++ {
+		if cd, ok := EdgeOwnCond(path[i], path[i+1]); ok {
+			out = append(out, stripBool(cd))
+		}
+	}
+	return out
 }
